@@ -2156,7 +2156,10 @@ class RawAlgorithmsMixIn:
                 L_data[D,start:stop, start:stop] = K[start:stop, start:stop]
 
             # STEP 5: compute Q
-            XT = K*H
+            # (entries of H that vanish, i.e. inside a block of repeated eigenvalues, do not
+            # contribute: K may hold non-finite entries of higher-order input coefficients there)
+            XT = numpy.zeros_like(K)
+            XT[H != 0] = K[H != 0]*H[H != 0]
             Q_data[D] = numpy.dot(Q_data[0], XT + S)
 
         return b
